@@ -1229,7 +1229,7 @@ func (ex *Exec) toAnyAs(v *Val, to types.Type) *Val {
 				return set(tagInt64, "i", v.S)
 			case types.Int, types.UntypedInt, types.UntypedRune:
 				if b.Kind() == types.UntypedRune {
-					return set(tagOther, "ref", v.S)
+					return set(tagOther, "i", v.S).withKid("ty", ex.intVal(fmt.Sprint(typeID(types.Typ[types.Int32])), types.Typ[types.Int]))
 				}
 				return set(tagInt, "i", v.S)
 			case types.Uint64:
@@ -1247,17 +1247,28 @@ func (ex *Exec) toAnyAs(v *Val, to types.Type) *Val {
 			}
 		}
 	}
+	setTy := func(o *Val) *Val {
+		return o.withKid("ty", ex.intVal(fmt.Sprint(typeID(t)), types.Typ[types.Int]))
+	}
 	if v.Sh.IsLeaf() && v.Sh.Leaf == "Int" && isRefType(t) {
 		// pointer / interface boxed: nil stays distinguishable only for interfaces
 		if _, isIface := t.Underlying().(*types.Interface); isIface {
 			out := z.withKid("tag", ex.intVal(ite(eq(v.S, "0"), "0", fmt.Sprint(tagOther)), types.Typ[types.Int]))
+			out = out.withKid("ty", ex.intVal(ex.eng.smt.fresh("dynty", "Int"), types.Typ[types.Int]))
 			return out.withKid("ref", ex.intVal(v.S, types.Typ[types.Int]))
 		}
-		return set(tagOther, "ref", v.S)
+		return setTy(set(tagOther, "ref", v.S))
+	}
+	if v.Sh.IsLeaf() && v.Sh.Leaf == "Int" && isIntT(t) {
+		// named integer type: payload in i, identity in ty
+		return setTy(set(tagOther, "i", v.S))
+	}
+	if v.Sh.IsLeaf() && v.Sh.Leaf == "String" {
+		return setTy(set(tagOther, "s", v.S))
 	}
 	// any other dynamic type
 	r := ex.eng.smt.fresh("boxed", "Int")
-	return set(tagOther, "ref", r)
+	return setTy(set(tagOther, "ref", r))
 }
 
 func (ex *Exec) evalIndex(st *State, e *ast.IndexExpr, sc *SpecCtx, commaOk bool) []*Val {
@@ -1657,13 +1668,26 @@ func (ex *Exec) typeAssert(st *State, x *Val, to types.Type) (*Val, string) {
 				}
 			}
 		}
-		// other dynamic types: membership unknown but only possible with tagOther
-		okb := ex.eng.smt.fresh("taok", "Bool")
-		v := ex.freshVal(to, "ta")
-		if v.Sh.IsLeaf() && v.Sh.Leaf == "Int" && isRefType(to) {
-			v = &Val{Sh: v.Sh, T: to, S: x.kid("ref").S}
+		// other dynamic types
+		if _, isIface := to.Underlying().(*types.Interface); isIface {
+			okb := ex.eng.smt.fresh("taok", "Bool")
+			v := ex.freshVal(to, "ta")
+			if v.Sh.IsLeaf() && v.Sh.Leaf == "Int" {
+				v = &Val{Sh: v.Sh, T: to, S: x.kid("ref").S}
+			}
+			return v, and(not(eq(tag, "0")), okb)
 		}
-		return v, and(eq(tag, fmt.Sprint(tagOther)), okb)
+		okc := and(eq(tag, fmt.Sprint(tagOther)), eq(x.kid("ty").S, fmt.Sprint(typeID(to))))
+		tsh := ex.eng.sh.shapeOf(to)
+		switch {
+		case tsh.IsLeaf() && tsh.Leaf == "Int" && isRefType(to):
+			return &Val{Sh: tsh, T: to, S: x.kid("ref").S}, okc
+		case tsh.IsLeaf() && tsh.Leaf == "Int":
+			return &Val{Sh: tsh, T: to, S: x.kid("i").S}, okc
+		case tsh.IsLeaf() && tsh.Leaf == "String":
+			return &Val{Sh: tsh, T: to, S: x.kid("s").S}, okc
+		}
+		return ex.freshVal(to, "ta"), okc
 	}
 	// non-empty interface to concrete: keep the reference, success unknown
 	okb := ex.eng.smt.fresh("taok", "Bool")
